@@ -63,7 +63,8 @@ def Flags.run (f : Flags) : List (Setter × Bool) → Flags
   | [] => f
   | (s, v) :: rest => (f.set s v).run rest
 
-/-! ### `str()` / `repr()` of values (the key of non-record list items) -/
+/-! ### `str()` / `repr()` of values (`natStr`/`intStr` are used by the paths and the JSON text; `repr`/`str` of the
+other values were the key of list items before fixes C07-b / C08-b and are no longer used by the walks) -/
 
 def natDigitsAux : Nat → Nat → List Char → List Char
   | 0, _, acc => acc
